@@ -149,7 +149,7 @@ func (e *c15env) sentinelDiff() string {
 }
 
 var c15hostile = []string{"..", ".", "", "a/..", "../x", "../../outside/SECRET", "../outside/SECRET", "../outside", "../victim", "../../victim", "/etc", "/", "\\", "a\\..\\b", "..\\", "...", "..a",
-	"x\x00y", "outside", "SECRET", "victim", "exportX", "../exportX/near", "..//victim", "./../victim", "a/../../victim", strings.Repeat("L", 300)}
+	"x\x00y", "..\x00", "\x00..", ".\x00.", "..\x00\x00", "outside", "SECRET", "victim", "exportX", "../exportX/near", "..//victim", "./../victim", "a/../../victim", strings.Repeat("L", 300)}
 
 type c15driver struct {
 	w      *mon.W
@@ -305,8 +305,13 @@ func (d *c15driver) run(seqNo int) {
 		case 0:
 			names = []string{hn}
 		case 1:
+			dot := ".."
+			if r.Intn(3) == 0 {
+				// a ".." that does not look like one to a byte-wise comparison
+				dot = []string{"..\x00", "\x00..", ".\x00."}[r.Intn(3)]
+			}
 			for i := 0; i < depth+1+r.Intn(4); i++ {
-				names = append(names, "..")
+				names = append(names, dot)
 			}
 			names = append(names, []string{"outside", "victim", "SECRET", "export", "f"}[r.Intn(5)])
 		case 2:
